@@ -88,7 +88,13 @@ func (fc *fnCtx) visitedTerm(ev *evalCtx) string {
 
 func (fc *fnCtx) evalHole(text string, ev *evalCtx) Val {
 	if strings.HasPrefix(text, "zero:") {
-		t := fc.e.typeByName[strings.TrimSpace(text[5:])]
+		tn := strings.TrimSpace(text[5:])
+		t := fc.e.typeByName[tn]
+		if t == nil && strings.HasPrefix(tn, "[]") {
+			if et := fc.e.typeByName[tn[2:]]; et != nil {
+				t = types.NewSlice(et)
+			}
+		}
 		if t == nil {
 			panic(unsupported{"hole {" + text + "}: unknown type"})
 		}
